@@ -191,6 +191,7 @@ type Sim struct {
 	running  []*Task
 	nextTask int
 	cur      *Task
+	LastRun  *Task // the task whose goroutine ran in the last step (kept after it finished)
 	callIdx  int
 
 	store *Store
@@ -483,6 +484,7 @@ func (s *Sim) StartTask(c *Ctrl, req reconcile.Request) *Task {
 	s.mu.Lock()
 	s.running = append(s.running, t)
 	s.mu.Unlock()
+	s.LastRun = t
 	ctx := s.TaskCtx(t)
 	for _, f := range s.Mgr.onTaskStart {
 		f(t)
@@ -627,6 +629,7 @@ func (s *Sim) release(c *Call) {
 		r = s.decideFaults(c)
 	}
 	s.cur = c.Task
+	s.LastRun = c.Task
 	s.SchedSig = (s.SchedSig ^ hashStr(c.Task.Ctrl.Name+c.Verb+c.Kind)) * 1099511628211
 	s.Logf("run  %s %s%s", c.Task.Name(), c.String(), faultSuffix(r))
 	c.Task.calls++
@@ -712,8 +715,15 @@ func (s *Sim) StepOpt(allowTime bool) bool {
 		}
 	}
 	// 6. due timers / time advance
-	if t := s.nextTimer(false); t != nil && (allowTime || !t.At.After(time.Now())) {
-		t := t
+	t := s.nextTimer(false)
+	if t != nil && !(allowTime || !t.At.After(time.Now())) {
+		t = nil
+	}
+	// advancing time while work is runnable stalls that work: a rare, per-run tunable event
+	if t != nil && t.At.After(time.Now()) && len(cands) > 0 && !s.Ch.Chance("time.busy", s.Knobs.PTimeBusy) {
+		t = nil
+	}
+	if t != nil {
 		w := s.Knobs.WTime
 		if len(cands) == 0 {
 			w = 1
@@ -726,7 +736,11 @@ func (s *Sim) StepOpt(allowTime bool) bool {
 			s.Logf("time %s", t.Name)
 			s.fireTimer(t)
 		}})
-	} else if len(cands) == 0 {
+	}
+	if t == nil && len(cands) == 0 {
+		if s.nextTimer(false) != nil {
+			return false // only a time advance is possible and the caller did not allow it
+		}
 		if s.nativeBlocked() {
 			s.Stat("native.wait")
 			if s.Stats["native.wait"] > 100000 {
